@@ -30,8 +30,8 @@ CHECKS = {
     "C10": {
         "level": "fault_enumeration",
         "tests": [
-            {"pkg": "walx", "run": "^TestC10_Crash$", "quick": 40000, "thorough": 2400000},
-            {"pkg": "walx", "run": "^TestC10_Corrupt$", "quick": 40000, "thorough": 2400000},
+            {"pkg": "walx", "run": "^TestC10_Crash$", "quick": 40000, "thorough": 2400000, "max_per_process": 40000},
+            {"pkg": "walx", "run": "^TestC10_Corrupt$", "quick": 40000, "thorough": 2400000, "max_per_process": 40000},
         ],
         "floors": {"hit_stored_bytes": 0.15, "tail_record_hit": 0.10},
         "rule": "(a) power-loss images of a real WAL (SyncData=true): the durable content of each segment file is what it "
